@@ -19,7 +19,7 @@ LEVEL_TEXT = "Theorems in Properties_C06.v about Model/Regp.v: for every success
 LEVEL_NOTE = 'Trusted: Coq kernel; hand model of register-protocol.c (correspondence-tested incl. the backend call log); data words are opaque octets (LE host). No axioms.'
 NO_SHRINK = True
 
-def gen(rng, tier):
+def gen0(rng, tier):
     big = tier == 'thorough'
     yield from gen_serve_verdicts(rng, 6 if big else 2)
     yield from gen_serve_bounds(rng, [128, 100, 256] + ([77, 90, 129, 200] if big else []))
@@ -27,3 +27,6 @@ def gen(rng, tier):
 
 def nontrivial(c):
     return True
+
+def gen(rng, tier):
+    yield from with_lending(gen0(rng, tier))
